@@ -157,6 +157,24 @@ SizeCases ==
         rk \in {"rect", "ellipse", "g"}, r \in RefBoxes, k \in {"rect", "ellipse"},
         m \in {<<"same", 0, 0>>, <<"pct", 50, 50>>, <<"pct", 150, 150>>, <<"add", 8, -4>>}}
 
+\* dw / dh / dwh: absolute values add to the size, percentages scale it; the anchor
+\* (top-left, the xy-loc location, or the centre for cxy) does not move
+DeltaCases ==
+    {[fam |-> "rel", form |-> "delta", kind |-> k, w |-> 8, h |-> 16, anchor |-> a, mode |-> m[1], a1 |-> m[2], a2 |-> m[3],
+      exp |-> LET nw == IF m[1] = "abs" THEN 8 + m[2] ELSE Div(8 * m[2], 100)
+                  nh == IF m[1] = "abs" THEN 16 + m[3] ELSE Div(16 * m[3], 100)
+              IN PlaceAt(<<40, 24>>, a, nw, nh)] :
+        k \in {"rect", "ellipse"}, a \in {"tl", "c", "br", "t", "l"},
+        m \in {<<"abs", 4, 8>>, <<"abs", -4, 0>>, <<"pct", 50, 150>>, <<"pct", 200, 100>>}}
+
+\* reuse placement (C18): an instance of a template drawn at the origin is placed with its
+\* top-left at the reuse element's x/y (a shape) or translated there (a group)
+ReusePosCases ==
+    {[fam |-> "rel", form |-> "reusepos", tkind |-> tk, w |-> sz[1], h |-> sz[2], x |-> p[1], y |-> p[2], where |-> wh,
+      exp |-> B(p[1], p[2], p[1] + sz[1], p[2] + sz[2])] :
+        tk \in {"rect", "circle", "ellipse", "g", "symbol"}, sz \in {<<8, 8>>},
+        p \in {<<0, 0>>, <<20, -12>>, <<-16, 4>>}, wh \in {"specs", "inline-before", "inline-after"}}
+
 \* chains: b placed against a, c against b (translation composes)
 ChainCases ==
     {[fam |-> "rel", form |-> "chain", ref |-> r, d1 |-> d1, d2 |-> d2, gap |-> g,
@@ -165,6 +183,7 @@ ChainCases ==
         r \in RefBoxes, d1 \in {"h", "H", "v", "V"}, d2 \in {"h", "H", "v", "V"}, g \in {0, 4}}
 
 RelCases == DirCases \cup LocCases \cup EdgeCases \cup ScalarCases \cup SizeCases \cup ChainCases \cup PointRefCases
+            \cup DeltaCases \cup ReusePosCases
 
 \* identities of the layout reference, checked on every case
 RelIdentities ==
@@ -176,6 +195,7 @@ RelIdentities ==
         \* an absolute offset of 0 is the start of the edge, like 0%
         /\ c.form = "edge" /\ c.okind = "abs" /\ c.off = 0 => EdgeLoc(c.ref, c.edge, "abs", 0) = EdgeLoc(c.ref, c.edge, "pct", 0)
         /\ c.form = "loc" => Loc(PlaceAt(Loc(c.ref, c.loc), c.anchor, c.w, c.h), c.anchor) = Loc(c.ref, c.loc)
+        /\ c.form = "delta" => Loc(c.exp, c.anchor) = <<40, 24>>
         /\ c.form = "dir" /\ c.dir \in {"h", "H"} => Cy(c.exp) = Cy(c.ref) /\ H(c.exp) = c.h /\ W(c.exp) = c.w
         /\ c.form = "dir" /\ c.dir \in {"v", "V"} => Cx(c.exp) = Cx(c.ref)
         /\ c.form = "dir" /\ c.dir = "h" => c.exp.x1 - c.ref.x2 = c.gap
@@ -340,9 +360,11 @@ RootBox(e, border) == B(FloorQ(e.x1 - 4 * border), FloorQ(e.y1 - 4 * border), Ce
 
 \* items: [kind, box, counts]  - counts: whether the item contributes to E
 ItemKinds == {"rect", "circle", "line", "box", "text", "point", "defs", "shapetext", "gtrans", "gscale", "specs", "symbol",
-              "usex", "usey", "usexy"}     \* <use> of a shape kept in <defs>, offset by x and / or y
+              "usex", "usey", "usexy",     \* <use> of a shape kept in <defs>, offset by x and / or y
+              "polyline", "path", "nestedsvg", "gnested", "clip", "reuse"}
 ItemBoxes == {B(2, 6, 18, 14), B(-22, -9, -6, 7), B(40, 1, 47, 30)}
-Counts(k) == k \in {"rect", "circle", "line", "box", "text", "gtrans", "gscale", "shapetext", "usex", "usey", "usexy"}
+Counts(k) == k \in {"rect", "circle", "line", "box", "text", "gtrans", "gscale", "shapetext", "usex", "usey", "usexy",
+                     "polyline", "path", "nestedsvg", "gnested", "clip", "reuse"}
 \* the geometry an item contributes, given its base box
 Contribution(k, b) ==
     CASE k = "text" -> B(b.x1, b.y1, b.x1, b.y1)                       \* standalone text: its anchor point
@@ -351,6 +373,9 @@ Contribution(k, b) ==
       [] k = "usex" -> Shift(b, 80, 0)                                   \* <use href x="20">
       [] k = "usey" -> Shift(b, 0, -40)                                  \* <use href y="-10">
       [] k = "usexy" -> Shift(b, 80, -40)
+      [] k = "gnested" -> Shift(B(2 * b.x1, 2 * b.y1, 2 * b.x2, 2 * b.y2), 12, -8)   \* translate(3 -2) outside scale(2)
+      [] k = "clip" -> B(b.x1, b.y1, b.x1 + 4, b.y1 + 4)     \* clipped to a 1 x 1 clipPath at its corner
+      [] k = "reuse" -> Shift(b, 80, 40)                     \* instance of a template in <specs> at x/y offset
       [] k = "circle" -> B(b.x1, b.y1, b.x1 + H(b), b.y2)               \* circle of diameter H at the box's left
       [] OTHER -> b                                                      \* shapetext: the shape only, not its text
 ItemLists ==
